@@ -388,7 +388,7 @@ def removePeer : List (Fin n) → Ctx n → Ctx n × Bool
       match status c.s p with
       | .connected =>
         let c1 := emit c c.s (.drop p)
-        let d := psDisconnect c1.s p
+        let d := psDisconnect c.s p
         if d.2 then (withS c1 d.1, true)
         else
           let f := forgetPeer d.1 p
